@@ -31,3 +31,7 @@ def grammars(tier, seed, n_random=1500, exhaustive_prods=3):
     rng3 = random.Random(seed * 15485863 + 3)          # appended family (the random stream above is unchanged)
     for i in range(n_random // 3):
         yield S.random_nullable_heavy(rng3), 'random nullable-heavy, 3-5 variables'
+    for i in range(n_random // 10):
+        # terminals (and variables) whose values differ but print alike: 1 and '1' - names derived from str(value) must not merge them
+        ts = rng3.choice([[1, '1'], [1, '1', 'a'], ['a', 2, '2']]); vs = ['S', 'A'] if rng3.random() < 0.7 else ['S', 3, '3']
+        yield S.random_grammar(rng3, vs, ts, rng3.choice([2, 3]), rng3.choice([2, 3, 4])), 'random, values that print alike'
